@@ -1,0 +1,11 @@
+//go:build verif
+
+package store
+
+// VerifSetDeleteRangeParallelThreshold overrides the range size from which DeleteRange uses its
+// parallel path and returns the previous value (verif builds only).
+func VerifSetDeleteRangeParallelThreshold(n uint64) uint64 {
+	old := deleteRangeParallelThreshold
+	deleteRangeParallelThreshold = n
+	return old
+}
